@@ -169,7 +169,7 @@ def _render_item(em: _Emitter, it: Any, depth: int) -> None:
         if it.as_name:
             em.mark("import", it, it.as_name)
             em.write(" ")
-        em.write(f'"{it.file.filename}"' + em.semi())
+        em.write(f'"{it.path_text}"' + em.semi())
         em.nl()
     elif isinstance(it, Const):
         _comment(em, depth, f"constant {it.name}")
